@@ -207,7 +207,7 @@ def ast_rules(ctx):
 def run(ctx):
     ev, pm = ctx.ev, ctx.pm
     ev.explanation = (
-        "(a) Equivariance of layers, blocks and networks is decided by C06-C08 with every learnable parameter a free symbol, hence for every value an optimiser can reach. "
+        "(a) Equivariance of layers, blocks and networks is decided by C06-C08 with every learnable parameter a free symbol, hence for every value an optimiser can reach; a compact set of those obligations (GroupNorm on all four types, the vector-neuron nonlinearity, two convolution blocks with pseudo-types) is re-decided here (C09.PARAM). "
         "(b) TAINT: ConvContract (both code paths, all bias modes) and whole equivariant models are abstractly interpreted with every symbol passing through jax.lax.stop_gradient "
         "renamed sg(symbol); no output element may depend on a bank symbol that is not wrapped -- so the bank's gradient is identically zero and training changes it at most by the "
         "common rescaling of weight decay; AST: the field is written only in ConvContract.__init__. (c) AST rules on train_step/train: gradient w.r.t. the model argument, model "
@@ -251,4 +251,23 @@ def run(ctx):
         extra = " (observed through %s)" % cls if cls != "ConvContract" else ""
         ctx.add(Finding("C09", "C09.TAINT." + kind, q, "%s%s (%d of the swept configurations fail)" % (what, extra, len(items)), path, line, cfg, kind + (":fast" if fast else "")))
     ev.instances("C09.TAINT.obligations", ev.obligations, floor=15 if ctx.tier == "quick" else 17)
+    # (a) equivariance for every value of the learnable leaves: a compact set of the C06-C08 obligations is
+    # decided here as well, so that a parameter that is harmless only at its initial value is reported by C09
+    from . import c07, c08
+
+    pj = [(ctx.repo, "GroupNorm", 2, (((0, 0), 2), ((0, 1), 2), ((1, 0), 2), ((1, 1), 2)), 1),
+          (ctx.repo, "GroupNorm", 2, (((0, 1), 2), ((1, 1), 2)), 2),
+          (ctx.repo, "VectorNeuronNonlinear", 2, (((0, 0), 1), ((0, 1), 1), ((1, 0), 2)), "relu")]
+    for job, r in ctx.pairs(c08.worker, pj):
+        ev.obligation("param-generic", not r["problems"], ("c08",) + tuple(str(v) for v in r["cfg"].values()), sample=r["cfg"])
+        for kind, what, site in r["problems"]:
+            q = {"GroupNorm": "GroupNorm.__call__", "VectorNeuronNonlinear": "VectorNeuronNonlinear.__call__"}[job[1]]
+            ctx.add(Finding("C09", "C09.PARAM." + kind, q, "with every learnable parameter a free symbol (i.e. after any training history): %s" % what, pm.path(LAYERS_MOD), pm.func(LAYERS_MOD, q).lineno, r["cfg"], kind))
+    S3 = ([((0, 1), 1), ((1, 0), 1)], [((0, 0), 1), ((1, 1), 1)])
+    mj = [(ctx.repo, dict(D=2, depth=1, cls="ConvBlock", input=S3[0], output=S3[1], use_group_norm=True, activation="relu", use_bias="auto")),
+          (ctx.repo, dict(D=2, depth=1, cls="ConvBlock", input=S1[0], output=S1[1], use_group_norm=True, activation="gelu", use_bias="mean", preactivation_order=True))]
+    for job, r in ctx.pairs(c07.worker, mj, chunk=1):
+        ev.obligation("param-generic", not r["problems"], ("c07",) + tuple(str(v) for v in sorted(r["cfg"].items())), sample=None)
+        for kind, what, site in r["problems"]:
+            ctx.add(Finding("C09", "C09.PARAM." + kind, "ConvBlock.__call__", "with every learnable parameter a free symbol (i.e. after any training history): %s" % what, pm.path(MODELS_MOD), pm.func(MODELS_MOD, "ConvBlock.__call__").lineno, r["cfg"], kind))
     ev.exhaustive = False
